@@ -106,6 +106,9 @@ TEMPLATE = r'''
 //@ ensures err == nil ==> forall s *SectionProperties, k int :: {s.%(H)sReferences[k]} allocated(s) && old(isFirstSect(d.Body.Elements, s)) && old(%(h)sFirstAt(s.%(H)sReferences, k, string(%(kind)s))) && old(%(h)sCanon(s.%(H)sReferences, %(rels)s)) ==> %(h)sCanon(s.%(H)sReferences, %(rels)s)
 //@ ensures err == nil ==> forall s *SectionProperties :: {s.%(O)sReferences} allocated(s) && old(isFirstSect(d.Body.Elements, s)) && old(%(o)sCanon(s.%(O)sReferences, %(rels)s)) ==> %(o)sCanon(s.%(O)sReferences, %(rels)s)
 //@ ensures unchangedExcept("map:string:[]byte", "Relationships.Relationships", "Relationship.*", "ContentTypes.Overrides", "Override.*", "Body.Elements", "cell:any", "SectionProperties.XmlnsR", "SectionProperties.%(H)sReferences", "%(T)s.ID", "cell:*%(T)s")
+// (C02, package-wide invariant docRelsResolve - zz_contracts_verif_pkg.go) every internal relationship of the list still names a part that is
+// present: the (found or new) relationship's target is the part just stored, relative to word/; earlier entries and parts stay
+//@ ensures err == nil && old(docRelsResolve(d)) ==> docRelsResolve(d)
 '''
 
 def gen():
